@@ -171,8 +171,14 @@ fn judge_c07(h: &T1Harness, t: &mut T1, end: RunEnd) -> V3 {
         let err = log.iter().find_map(|x| if x.side == to && x.k == k && x.dir == dir && !x.submitted { if let Ev::Err(e) = &x.ev { if e.starts_with("push_promise:") { None } else { Some(e.clone()) } } else { None } } else { None });
         // a pushed response is only reachable through the parent's push stream: if the parent request failed first the
         // application has no handle to ask (not this clause)
+        // (this exemption is kept only for the case that the client never got to ask: its request task itself failed before it
+        // could take the push stream. A promise that was queued when the parent failed is still handed out by
+        // poll_push_promise - seed C07d made that visible)
         if dir == Dir::PushResp && !log.iter().any(|x| x.side == to && x.k == k && x.dir == Dir::PushResp && !x.submitted && matches!(x.ev, Ev::PushReq(_))) {
-            continue;
+            let client_could_ask = log.iter().any(|x| x.side == to && x.k == k && x.dir == Dir::Req && x.submitted && matches!(x.ev, Ev::StreamId(_)));
+            if !client_could_ask {
+                continue;
+            }
         }
         // a request that the server application was never handed (accept reported the end of the connection first) has no
         // handle through which it could be delivered
